@@ -1062,6 +1062,15 @@ func (d *indexData) newMatchTree(q query.Q, opt matchTreeOpt) (matchTree, error)
 		}, err
 
 	case *query.Type:
+		if s.Type == query.TypeFileMatch {
+			// File matches are what a shard returns anyway.
+			return d.newMatchTree(s.Child, opt)
+		}
+		if s.Type == query.TypeRepo {
+			// typeRepoSearcher resolves type:repo before shards are searched;
+			// a shard on its own cannot, but it must not crash either.
+			return nil, fmt.Errorf("type:repo has to be resolved before searching a shard")
+		}
 		if s.Type != query.TypeFileName {
 			break
 		}
